@@ -235,6 +235,19 @@ match churn 64 Nil with
         }
         if bad { std::process::exit(7); }
     }
+    if which == "ioimport" {
+        // C02: an imported module whose value is an IO action, with IO execution enabled
+        let mk = |run_io: bool| { let vm = new_vm(); vm.run_io(run_io); vm };
+        for run_io in [false, true] {
+            let vm = mk(run_io);
+            vm.load_script("iomod", r#"let { wrap } = import! std.io in wrap 41"#).unwrap_or_else(|e| panic!("{}", e));
+            let typ = vm.typecheck_str("main", "import! iomod", None).map(|x| x.1.to_string()).map_err(|e| e.to_string());
+            let r = vm.run_expr::<OpaqueValue<RootedThread, Hole>>("main", r#"let { flat_map, wrap } = import! std.io in let m = import! iomod in flat_map (\x -> wrap (x #Int+ 1)) m"#)
+                .map(|x| format!("{:?} : {}", x.0, x.1)).map_err(|e| e.to_string().lines().take(3).collect::<Vec<_>>().join(" | "));
+            println!("run_io={}: import! iomod : {:?}; flat_map (\\x -> wrap (x+1)) m = {:?}", run_io, typ, r);
+            if r.is_err() { std::process::exit(8); }
+        }
+    }
     if which == "lazy" {
         let src = r#"let { lazy } = import! std.lazy in lazy (\_ -> error "fail")"#;
         let (l, _) = vm.run_expr::<OpaqueValue<RootedThread, Hole>>("t", src).unwrap(); let l: L = unsafe { std::mem::transmute(l) };
